@@ -36,6 +36,16 @@ def gen_cases(seed, tier, n):
             c = tracegen.gen_case(seed, i, tracegen.PROFILES["meta_bigvocab" if i % 3 == 2 else "meta"])
             c["kind"] = "meta"
             c["params"] = {"kind": "meta"}
+            if i % 2 == 1:
+                # two device-side annotations of EQUAL duration that overlap each other and a kernel of their stream: which of them a kernel
+                # is credited to must not depend on the numbering of the symbols
+                for rk in c["ranks"].values():
+                    ks = [e for e in rk["events"] if e.get("cat") == "kernel" and "stream" in (e.get("args") or {}) and e.get("dur", 0) > 0]
+                    for k_ in ks[:3]:
+                        L = k_["dur"] + 4
+                        for nm, off in (("zz_phase_tie", 2), ("aa_phase_tie", 1), ("mm_phase_tie", 3)):
+                            rk["events"].append({"ph": "X", "cat": "gpu_user_annotation", "name": nm, "pid": k_["pid"], "tid": k_["tid"],
+                                                 "ts": k_["ts"] - off, "dur": L, "args": {"stream": k_["args"]["stream"]}})
         else:
             ops = []
             npool = 1
